@@ -109,7 +109,7 @@ func c15Templates() []c15Template {
 	}
 }
 
-var c15Domain = []val.Value{val.N(1), val.S("1"), val.True, val.A(val.N(1)), val.O(map[string]val.Value{"a": val.N(1)}), val.N(2)}
+var c15Domain = []val.Value{val.N(1), val.S("1"), val.True, val.A(val.N(1)), val.O(map[string]val.Value{"a": val.N(1)}), val.N(2), val.NullV}
 
 func c15Judge(rec *stats.Recorder, prog *ast.Node, doc val.Value, key string, nt bool) (string, diffCase) {
 	c := mkDiff(prog, doc, true)
@@ -126,7 +126,7 @@ func c15Judge(rec *stats.Recorder, prog *ast.Node, doc val.Value, key string, nt
 // TestC15_Exhaustive: every array of length <= 3 over a 6-value domain, as a
 // literal and as an input member, under every template.
 func TestC15_Exhaustive(t *testing.T) {
-	rec := begin(t, "C15", "exhaustive: every array of 0..3 members over {1, \"1\", true, [1], {\"a\":1}, 2}, supplied as an array literal and as an input member, plus scalars and a missing value in array position, under 40 templates covering $map/$filter/$reduce/$single (observing callbacks of arity 0..4, built-ins, partials, chains as callbacks), $append, $reverse, $zip, $distinct, $count, $sum, $max, $min, $average; oracle = reference implementations; non-trivial = array of >= 2 members or a scalar/missing value in array position; distinct by (template, operand, supply mode)")
+	rec := begin(t, "C15", "exhaustive: every array of 0..3 members over {1, \"1\", true, [1], {\"a\":1}, 2, null}, supplied as an array literal and as an input member, plus scalars and a missing value in array position, under 40 templates covering $map/$filter/$reduce/$single (observing callbacks of arity 0..4, built-ins, partials, chains as callbacks), $append, $reverse, $zip, $distinct, $count, $sum, $max, $min, $average; oracle = reference implementations; non-trivial = array of >= 2 members or a scalar/missing value in array position; distinct by (template, operand, supply mode)")
 	defer finish(t, rec)
 	var arrays [][]val.Value
 	var build func(cur []val.Value, length int)
@@ -195,7 +195,7 @@ func genC15Array(t *rapid.T) []val.Value {
 		}
 		out[i] = rapid.SampledFrom([]val.Value{
 			val.N(1), val.S("1"), val.True, val.A(val.N(1)), val.O(map[string]val.Value{"a": val.N(1)}), val.O(map[string]val.Value{"a": val.S("1")}),
-			val.N(2), val.S("a"), val.False, val.A(), val.A(val.S("1")), val.A(val.N(1), val.N(2)), val.O(nil), val.N(0), val.S(""), val.A(val.A(val.N(1))),
+			val.N(2), val.S("a"), val.False, val.A(), val.A(val.S("1")), val.A(val.N(1), val.N(2)), val.O(nil), val.N(0), val.S(""), val.A(val.A(val.N(1))), val.NullV,
 		}).Draw(t, "member")
 	}
 	return out
